@@ -576,3 +576,101 @@ func breaksTies(info *types.Info, cond ast.Expr) bool {
 	})
 	return eqPos && cmpStr
 }
+
+// ---------------------------------------------------------------------------
+// CC14: a channel signalled without blocking has room for the signal.
+
+func ruleCC14(pkgs ...string) Rule {
+	return Rule{ID: "CC14", Kind: "must", Floor: 1,
+		Doc: "a channel field that is signalled with a non-blocking send (an arm of a select that has a default arm) is created with capacity >= 1 at every construction site: with an unbuffered channel the signal is dropped whenever the waiter has tested its condition and released the lock but is not yet parked in the receive, and it then waits forever (lost wake-up); sibling construction sites (the top-level and the nested lexer) must agree",
+		Run: func(c *Ctx, rr *core.RuleResult) {
+			for _, pkg := range pkgs {
+				pk := c.P.Pkgs[pkg]
+				if pk == nil {
+					continue
+				}
+				info := pk.TypesInfo
+				signalled := map[*types.Var]token.Pos{}
+				for _, f := range c.funcsOfPkg(pkg, false) {
+					f.OwnNodes(func(n ast.Node) bool {
+						sel, ok := n.(*ast.SelectStmt)
+						if !ok {
+							return true
+						}
+						hasDefault := false
+						var sends []*ast.SendStmt
+						for _, cl := range sel.Body.List {
+							cc := cl.(*ast.CommClause)
+							if cc.Comm == nil {
+								hasDefault = true
+							} else if s, ok := cc.Comm.(*ast.SendStmt); ok {
+								sends = append(sends, s)
+							}
+						}
+						if hasDefault {
+							for _, s := range sends {
+								if v := core.FieldOf(info, s.Chan); v != nil {
+									signalled[v] = s.Pos()
+								}
+							}
+						}
+						return true
+					})
+				}
+				capOf := func(e ast.Expr) (int64, bool, bool) { // capacity, is a make(chan), capacity known
+					call, ok := ast.Unparen(e).(*ast.CallExpr)
+					if !ok || !isBuiltinCall(info, call, "make") || len(call.Args) == 0 {
+						return 0, false, false
+					}
+					if _, isChan := info.TypeOf(call.Args[0]).Underlying().(*types.Chan); !isChan {
+						return 0, false, false
+					}
+					if len(call.Args) == 1 {
+						return 0, true, true
+					}
+					v, known := constInt(info, call.Args[1])
+					return v, true, known
+				}
+				n := 0
+				report := func(v *types.Var, e ast.Expr, where *core.Func) {
+					capacity, isMake, known := capOf(e)
+					key := fmt.Sprintf("%s.%s|created in %s", pkg, v.Name(), where.Name)
+					n++
+					switch {
+					case !isMake || !known:
+						rr.Unk(where, key, e.Pos(), "the channel stored here is not a make(chan …) with a constant capacity")
+					case capacity >= 1:
+						rr.OK(where, key, e.Pos(), "buffered", fmt.Sprintf("capacity %d: a non-blocking signal is kept until the waiter receives it", capacity))
+					default:
+						rr.Bad(where, key, e.Pos(), fmt.Sprintf("%s is signalled with a non-blocking send (%s) but created unbuffered here: a signal sent between the waiter's test and its receive is dropped and the waiter blocks forever", v.Name(), c.P.PosString(signalled[v])))
+					}
+				}
+				for _, f := range c.funcsOfPkg(pkg, false) {
+					f.OwnNodes(func(x ast.Node) bool {
+						switch x := x.(type) {
+						case *ast.KeyValueExpr:
+							if id, ok := x.Key.(*ast.Ident); ok {
+								if v, ok := info.Uses[id].(*types.Var); ok && v.IsField() {
+									if _, sig := signalled[v]; sig {
+										report(v, x.Value, f.Root())
+									}
+								}
+							}
+						case *ast.AssignStmt:
+							for i, l := range x.Lhs {
+								if v := core.FieldOf(info, l); v != nil && i < len(x.Rhs) && len(x.Lhs) == len(x.Rhs) {
+									if _, sig := signalled[v]; sig {
+										report(v, x.Rhs[i], f.Root())
+									}
+								}
+							}
+						}
+						return true
+					})
+				}
+				if len(signalled) > 0 && n == 0 {
+					rr.Unkp(c.P, pkg+"|signalled channels", 0, "channel fields are signalled without blocking but no construction site was found")
+				}
+			}
+		}}
+}
